@@ -610,3 +610,83 @@ def uuid_unicode(c):
         if o.returned and t != u'':
             b = c.run(prot.from_unicode, T, o.value)
             c.check('text_roundtrip', b.returned and b.value == t, detail=repr(b))
+
+
+# ------------------------------------------------------------------------------------------ xs:time with zone designators
+
+def _mk_time_lexical(pname, P):
+    @obligation('C08.time.%s.lexical_coverage' % pname, targets=['spyne.protocol._inbase:InProtocolBase.time_from_unicode'],
+                desc="every xs:time literal hh:mm:ss(.f{1,6})? with or without a zone designator (Z, +hh:mm, -hh:mm) that "
+                     "denotes a time of day is read, as the time of day it spells",
+                assumptions=ASSUME_TXT)
+    def ob(c):
+        from pyvc.text import FmtStr, Lit, Dec
+        prot = P()
+        H, M, S_ = c.int('hour'), c.int('minute'), c.int('second')
+        w = c.choose([0, 1, 3, 6], 'fraction_digits')
+        fr = c.int('fraction')
+        zone = c.choose(['', 'Z', '+', '-'], 'zone')
+        zh, zm = c.int('zone_hours'), c.int('zone_minutes')
+        if c.concrete:
+            if not (0 <= H < 24 and 0 <= M < 60 and 0 <= S_ < 60 and (w == 0 or 0 <= fr < 10 ** w) and 0 <= zh <= 14
+                    and 0 <= zm < 60 and (zh < 14 or zm == 0)):
+                c.end('outside the lexical space')
+            text = '%02d:%02d:%02d' % (H, M, S_) + (('.' + str(fr).zfill(w)) if w else '') + (
+                'Z' if zone == 'Z' else ('' if not zone else '%s%02d:%02d' % (zone, zh, zm)))
+        else:
+            c.assume(SBool(z3.And(tm.time_ok(H.t, M.t, S_.t, z3.IntVal(0)), zh.t >= 0, zh.t <= 14, zm.t >= 0, zm.t < 60,
+                                  z3.Or(zh.t < 14, zm.t == 0))))
+            if w:
+                c.assume(And(fr >= 0, fr < 10 ** w))
+            toks = [Dec(H.t, 2, True), Lit(':'), Dec(M.t, 2, True), Lit(':'), Dec(S_.t, 2, True)]
+            if w:
+                toks += [Lit('.'), Dec(fr.t, w, True)]
+            if zone == 'Z':
+                toks.append(Lit('Z'))
+            elif zone:
+                toks += [Lit(zone), Dec(zh.t, 2, True), Lit(':'), Dec(zm.t, 2, True)]
+            text = FmtStr(toks, str)
+        back = c.run(prot.from_unicode, Time, text)
+        c.check('decodes', back.returned, detail=repr(back))
+        if back.returned:
+            v = back.value
+            us = (fr * 10 ** (6 - w)) if w else 0
+            c.check('denoted_time_of_day', And(v.hour == H, v.minute == M, v.second == S_, v.microsecond == us),
+                    detail=repr(v))
+    return ob
+
+
+for _pn, _P in PROTS.items():
+    _mk_time_lexical(_pn, _P)
+
+
+# ------------------------------------------------------------------------------------------ text as element content
+
+@obligation('C08.text.element_roundtrip', targets=['spyne.protocol.xml:XmlDocument.unicode_to_parent',
+                                                   'spyne.protocol.xml:XmlDocument.unicode_from_element'],
+            bounded="14 texts: empty, blank-only (space, tab, newline, mixed), leading / trailing blanks, markup characters, "
+                    "CDATA-like, non-BMP, long",
+            desc="a Unicode / AnyUri value written as element content by XmlDocument / Soap11 and read back from the "
+                 "serialised element is the same text (xs:string preserves white space); the empty text comes back empty or "
+                 "None")
+def text_element_roundtrip(c):
+    from lxml import etree
+    from spyne.protocol.xml import XmlDocument
+    from spyne.protocol.soap import Soap11
+    TEXTS = [u'', u' ', u'\t', u'\n', u' \n\t ', u'  a  ', u'a\nb', u'\ta', u'a ', u'<x>&amp;</x>', u']]>', u'\U0001f600 \xe9',
+             u'x' * 5000, u'a\r\nb']
+    t = c.choose(TEXTS, 'text')
+    T = c.choose([Unicode, AnyUri], 'type')
+    P = c.choose([XmlDocument, Soap11], 'protocol')
+    prot = P()
+    parent = etree.Element('parent')
+    out = c.run(prot.to_parent, None, T, t, parent, 'urn:t', 'v')
+    c.check('encodes', out.returned and len(parent) == 1, detail=repr(out))
+    if not (out.returned and len(parent) == 1):
+        return
+    elt = etree.fromstring(etree.tostring(parent))[0]          # what travels: serialise and parse again
+    back = c.run(prot.from_element, None, T, elt)
+    c.check('decodes', back.returned, detail=repr(back))
+    if back.returned:
+        # (a carriage return is written as a character reference, so it survives line-end normalisation)
+        c.check('same_text', back.value == t or (t == u'' and back.value in (u'', None)), detail=(back.value, t))
